@@ -35,13 +35,28 @@ type result struct {
 // input builds fresh parents and a fresh datasource.
 type input func() (ways osm.Ways, rels osm.Relations, ds *osm.HistoryDatasource)
 
-func run(in input) result {
+// option sets the annotation runs under (index into optSets)
+var optNames = []string{"default", "ignore-inconsistency", "ignore-missing-children", "ignore-both+threshold"}
+
+func optSet(i int) []annotate.Option {
+	switch i {
+	case 1:
+		return []annotate.Option{annotate.IgnoreInconsistency(true)}
+	case 2:
+		return []annotate.Option{annotate.IgnoreMissingChildren(true)}
+	case 3:
+		return []annotate.Option{annotate.IgnoreInconsistency(true), annotate.IgnoreMissingChildren(true), annotate.Threshold(time.Minute)}
+	}
+	return nil
+}
+
+func run(in input, opt int) result {
 	ways, rels, ds := in()
 	var err error
 	var res result
 	var lists []osm.Updates
 	if ways != nil {
-		err = annotate.Ways(context.Background(), ways, ds)
+		err = annotate.Ways(context.Background(), ways, ds, optSet(opt)...)
 		for _, w := range ways {
 			lists = append(lists, w.Updates)
 		}
@@ -50,7 +65,7 @@ func run(in input) result {
 			res.xml = string(data)
 		}
 	} else {
-		err = annotate.Relations(context.Background(), rels, ds)
+		err = annotate.Relations(context.Background(), rels, ds, optSet(opt)...)
 		for _, r := range rels {
 			lists = append(lists, r.Updates)
 		}
@@ -84,17 +99,20 @@ func run(in input) result {
 	return res
 }
 
-func scenario(name, fam string, nchildren int, in input) vexplore.Scenario {
+func scenario(name, fam string, nchildren int, in input, opt int) vexplore.Scenario {
 	var ref *result
+	if opt != 0 {
+		name += " opts=" + optNames[opt]
+	}
 	return vexplore.Scenario{Name: name, Family: fam, Bound: 0, OnlyChildBelow: true,
 		New: func() (func(), func(*vsched.Outcome) ([]vexplore.Finding, string, bool)) {
 			if ref == nil {
 				// canonical order: MapKeys outside a controlled execution sorts the keys
-				r := run(in)
+				r := run(in, opt)
 				ref = &r
 			}
 			var got result
-			main := func() { got = run(in) }
+			main := func() { got = run(in, opt) }
 			check := func(o *vsched.Outcome) ([]vexplore.Finding, string, bool) {
 				var fs []vexplore.Finding
 				nonvac := len(o.Choices) > 0 && ref.nupd >= 2
@@ -127,7 +145,7 @@ func clip(s string) string {
 // historyGenerators returns one lazy generator per first-level subtree of the
 // space (plus one for the initial world), so that no process ever holds the
 // whole list of histories.
-func historyGenerators(sp *histsim.Space) []vexplore.Generator {
+func historyGenerators(sp *histsim.Space, nopts int) []vexplore.Generator {
 	ops := sp.Ops()
 	var gens []vexplore.Generator
 	for k := -1; k < len(ops); k++ {
@@ -159,8 +177,10 @@ func historyGenerators(sp *histsim.Space) []vexplore.Generator {
 					}
 					return nil, w.Relations(sp.Fam.Parent.RelationID()), ds
 				}
-				sc := scenario(name, "histories/"+sp.Name(), len(sp.Fam.Children), in)
-				yield(&sc)
+				for opt := 0; opt < nopts; opt++ {
+					sc := scenario(name, "histories/"+sp.Name(), len(sp.Fam.Children), in, opt)
+					yield(&sc)
+				}
 				return k >= 0
 			})
 		}})
@@ -200,15 +220,56 @@ func stability(list []int, later []int, same []int) input {
 	}
 }
 
+// lateKinds: what the history of one child of the late-child family looks like
+// relative to the two parent versions (stamped P1 < P2).
+var lateKinds = []string{"normal", "starts-after-P1", "starts-after-P2", "deleted-between-P1-and-P2", "no-history", "two-versions-same-second-after-P1"}
+
+func lateChild(kinds []int) input {
+	return func() (osm.Ways, osm.Relations, *osm.HistoryDatasource) {
+		d := func(day int) time.Time { return time.Date(2011, 1, 1, 0, 0, 0, 0, time.UTC).AddDate(0, 0, day) }
+		ds := &osm.HistoryDatasource{Nodes: map[osm.NodeID]osm.Nodes{}}
+		p1, p2 := d(100), d(200)
+		w1 := &osm.Way{ID: 7, Version: 1, Visible: true, ChangesetID: 50, Timestamp: p1}
+		w2 := &osm.Way{ID: 7, Version: 2, Visible: true, ChangesetID: 60, Timestamp: p2}
+		for c, k := range kinds {
+			id := osm.NodeID(c + 1)
+			w1.Nodes = append(w1.Nodes, osm.WayNode{ID: id})
+			w2.Nodes = append(w2.Nodes, osm.WayNode{ID: id})
+			mk := func(v int, t time.Time, visible bool) *osm.Node {
+				return &osm.Node{ID: id, Version: v, Visible: visible, ChangesetID: osm.ChangesetID(100*(c+1) + v), Timestamp: t, Lat: float64(v), Lon: float64(c + 1)}
+			}
+			switch lateKinds[k] {
+			case "normal":
+				ds.Nodes[id] = osm.Nodes{mk(1, d(10+c), true), mk(2, d(120+c), true), mk(3, d(150+c), true), mk(4, d(250+c), true)}
+			case "starts-after-P1":
+				ds.Nodes[id] = osm.Nodes{mk(1, d(130+c), true), mk(2, d(160+c), true), mk(3, d(260+c), true)}
+			case "starts-after-P2":
+				ds.Nodes[id] = osm.Nodes{mk(1, d(230+c), true), mk(2, d(270+c), true)}
+			case "deleted-between-P1-and-P2":
+				ds.Nodes[id] = osm.Nodes{mk(1, d(20+c), true), mk(2, d(140+c), false), mk(3, d(170+c), true), mk(4, d(280+c), true)}
+			case "no-history":
+			case "two-versions-same-second-after-P1":
+				ds.Nodes[id] = osm.Nodes{mk(1, d(30+c), true), mk(2, d(135), true), mk(3, d(135), true), mk(4, d(290+c), true)}
+			}
+		}
+		// the first node closes the way: one child at two indexes
+		w1.Nodes = append(w1.Nodes, osm.WayNode{ID: 1})
+		w2.Nodes = append(w2.Nodes, osm.WayNode{ID: 1})
+		return osm.Ways{w1, w2}, nil, ds
+	}
+}
+
 func main() {
 	kit.Main("C12", "model_checking", func(r *kit.Run) {
-		r.Rule("every iteration order (all n! orders, free explorer choices) of the child map in core.Compute for (i) every history of edit-alphabet spaces (gen/histsim: way over 3 nodes, relation over 4 members, repeated-node churn way) up to the tier's depth and (ii) a stability family: one way version over 2-4 children (one repeated) with 13-24 updates and every pattern of equal one-second timestamps; " +
+		r.Rule("every iteration order (all n! orders, free explorer choices) of the child map in core.Compute for (i) every history of edit-alphabet spaces (gen/histsim: way over 3 nodes, relation over 4 members, repeated-node churn way) up to the tier's depth and (ii) a stability family: one way version over 2-4 children (one repeated) with 13-24 updates and every pattern of equal one-second timestamps; (iii) a late-child family: two parent versions over 2-3 children whose histories are normal / start after a parent version / contain a deleted version between the parents / are missing / have same-second versions, under four option sets; histories of (i) run under the default options and with IgnoreInconsistency; " +
 			"oracle: result identical to the canonical-order result (or both fail) and every update list sorted by (index, timestamp, version); non-vacuous = at least one order choice was made and the history has >= 2 updates; states = execution-tree nodes (order choices), transitions = choices taken")
 		r.Assume("vinst replaces only the map range in compute.go (vsched.MapKeys); outside a controlled execution the canonical order is sorted keys")
 		var scs []vexplore.Scenario
 		add := func(s vexplore.Scenario) { scs = append(scs, s) }
 		counts := map[string]int{}
 		var gens []vexplore.Generator
+		// histories run under the default options and with inconsistencies ignored
+		nopts := 2
 		type spc struct {
 			fam    string
 			regime histsim.Regime
@@ -229,7 +290,7 @@ func main() {
 				sp.Skews = []int{-1, 0, 1}
 			}
 			counts[sp.Name()] = s.depth
-			gens = append(gens, historyGenerators(sp)...)
+			gens = append(gens, historyGenerators(sp, nopts)...)
 		}
 		// stability family
 		type shape struct {
@@ -255,12 +316,37 @@ func main() {
 						same[c] = other
 					}
 					name := fmt.Sprintf("stability list=%v later=%v same=%v", sh.list, sh.later, same)
-					add(scenario(name, fmt.Sprintf("stability/%d-children", len(sh.later)), len(sh.later), stability(sh.list, sh.later, same)))
+					add(scenario(name, fmt.Sprintf("stability/%d-children", len(sh.later)), len(sh.later), stability(sh.list, sh.later, same), 0))
 					nst++
 				}
 			}
 		}
 		counts["stability"] = nst
+		// late-child family: children whose whole history starts after a parent
+		// version, a deleted version between parent versions, a child without
+		// history - the inconsistent inputs the ignore options exist for - x every
+		// option set x every map order
+		nlate := 0
+		for c := 2; c <= 3; c++ {
+			total := 1
+			for i := 0; i < c; i++ {
+				total *= len(lateKinds)
+			}
+			for code := 0; code < total; code++ {
+				kinds := make([]int, c)
+				x := code
+				for i := range kinds {
+					kinds[i] = x % len(lateKinds)
+					x /= len(lateKinds)
+				}
+				for opt := 0; opt < 4; opt++ {
+					name := fmt.Sprintf("late-child kinds=%v", kinds)
+					add(scenario(name, fmt.Sprintf("late-child/%d-children", c), c, lateChild(kinds), opt))
+					nlate++
+				}
+			}
+		}
+		counts["late-child"] = nlate
 		r.Set("history_space_depths", counts)
 		sort.SliceStable(scs, func(i, j int) bool { return false })
 		e := &vexplore.Explorer{R: r, Scenarios: scs, Generators: gens}
